@@ -73,7 +73,7 @@ func proofVectorLen(p *core.Prog, typeName, field string) int64 {
 func c03(c *Ctx) {
 	p, r := c.P, c.R
 	r.Technique = "constant-table and linear-form agreement of every Merkle check's (leaf, depth, index, root) with the consensus-spec positions per era; must-pass-through (cut) checks that each era's success passes all of its checks; bounds-to-error gates on every accumulator index; prover/verifier index agreement"
-	r.Explanation = "Decides: (R1) the header-proof entry point partitions block numbers by strict comparisons with 15537394 / 17034870 / 19426587 into four distinct validators, decoding the proof type of that era, and the duplicated constants (epoch size, fork numbers, Capella fork epoch, slots per epoch across packages) agree; (R2) pre-merge success only if ssz.VerifyProof returned (true, nil); post-merge success only if both the execution-block branch and the beacon-block branch verified; (R3) per call site: execution branch - leaf = header hash, depth = len(branch) = the SSZ vector length of that era's proof type = floor(log2(gindex)), gindex 3228 (merge..Deneb) / 6444 (Deneb..), root = the proof's beacon block root; beacon branch - leaf = beacon block root, depth 14 (historical roots) / 13 (summaries) = SSZ vector length, index = k*2^depth' + slot % 8192 with the constant part vanishing modulo 2^depth, root = HistoricalRoots[slot / 8192] resp. the BlockSummaryRoot of summary (slot - 194048*32) / 8192 on every path; pre-merge - index 4*8192 + 2*(number % 8192), leaf = header hash, root = HistoricalEpochs[number / 8192]; (R4) every accumulator lookup with a header- or proof-derived index on the validator's call paths is guarded by index < len(accumulator) whose failing edge returns an error; (R5) the prover's index is 2*8192 + 2*(number % 8192) (verifier = prover shifted under the length mix-in), it appends exactly one extra sibling holding the epoch size, and MixInLength is the same computation in both packages. Not decided: correctness of hashing/Merkle primitives; completeness and soundness over all accumulators and all single-node corruptions (value level)."
+	r.Explanation = "Decides: (R1) the header-proof entry point partitions block numbers by strict comparisons with 15537394 / 17034870 / 19426587 into four distinct validators, decoding the proof type of that era, and the duplicated constants (epoch size, fork numbers, Capella fork epoch, slots per epoch across packages) agree; (R2) pre-merge success only if ssz.VerifyProof returned (true, nil); post-merge success only if both the execution-block branch and the beacon-block branch verified; (R3) per call site: execution branch - leaf = header hash, depth = len(branch) = the SSZ vector length of that era's proof type = floor(log2(gindex)), gindex 3228 (merge..Deneb) / 6444 (Deneb..), root = the proof's beacon block root; beacon branch - leaf = beacon block root, depth 14 (historical roots) / 13 (summaries) = SSZ vector length, index = k*2^depth' + slot % 8192 with the constant part vanishing modulo 2^depth, root = HistoricalRoots[slot / 8192] resp. the BlockSummaryRoot of summary (slot - 194048*32) / 8192 on every path; pre-merge - index 4*8192 + 2*(number % 8192), leaf = header hash, root = HistoricalEpochs[number / 8192]; the index arithmetic is done on the wire value: an integer conversion that can change the value (unsigned to signed of the same width, narrowing) of anything but an already reduced remainder is not looked through, so `int(slot) % 8192` is not `slot % 8192`; (R4) every accumulator lookup with a header- or proof-derived index on the validator's call paths is guarded by index < len(accumulator) whose failing edge returns an error; (R5) the prover's index is 2*8192 + 2*(number % 8192) (verifier = prover shifted under the length mix-in), it appends exactly one extra sibling holding the epoch size, and MixInLength is the same computation in both packages. Not decided: correctness of hashing/Merkle primitives; completeness and soundness over all accumulators and all single-node corruptions (value level)."
 	r.Assumptions = []string{"zrnt merkle.VerifyMerkleBranch uses the low `depth` bits of index; fastssz VerifyProof checks a generalized-index proof", "consensus-spec generalized indices (execution payload block_hash 3228 / 6444; historical batch / summary block roots)"}
 	r.Floor("R1.era-dispatch", 5)
 	r.Floor("R2.success-gates", 7)
@@ -334,34 +334,41 @@ func c03(c *Ctx) {
 				okLeaf := core.Derives(a[0], func(v ssa.Value) bool { pa, ok := v.(*ssa.Parameter); return ok && pa.Type().String() == "[]byte" }, core.DeriveOpts{})
 				_ = lp
 				r.Check(okLeaf, rule, key+"el-leaf", pos, "leaf = the header hash parameter", "the execution branch's leaf is not the header hash")
-				_, rootIsParam := a[4].(*ssa.Parameter)
-				r.Check(rootIsParam, rule, key+"el-root", pos, "root = the beacon block root parameter", "the execution branch is not verified against the supplied beacon block root")
-				// call sites: operands and vector length
-				for cf, cs := range p.CallersOfFn(fn) {
-					for _, site := range cs {
-						sa := site.Common().Args
-						n := len(sa)
-						skey := fmt.Sprintf("%s→%s ", core.FuncName(cf), name)
-						var ptype string
-						core.Derives(sa[n-2], func(v ssa.Value) bool {
-							if c2, ok := v.(*ssa.Call); ok && (strings.HasSuffix(core.CalleeID(c2), ").GetExecutionBlockProof") || (c2.Call.IsInvoke() && c2.Call.Method.Name() == "GetExecutionBlockProof")) {
-								if rv, gf := core.ConcreteRecv(c2); rv != nil && gf != nil {
-									ptype = core.TypeName(rv.Type())
-									checkProofGetter(c, gf, "ExecutionBlockProof")
-								}
+				// the operands: through the call sites when this is a helper taking (hash, branch, root),
+				// directly when the check is written out in the era validator
+				elOperands := func(skey string, at ssa.Instruction, leafV, branchV, rootV ssa.Value) {
+					var ptype string
+					core.Derives(branchV, func(v ssa.Value) bool {
+						if c2, ok := v.(*ssa.Call); ok && (strings.HasSuffix(core.CalleeID(c2), ").GetExecutionBlockProof") || (c2.Call.IsInvoke() && c2.Call.Method.Name() == "GetExecutionBlockProof")) {
+							if rv, gf := core.ConcreteRecv(c2); rv != nil && gf != nil {
+								ptype = core.TypeName(rv.Type())
+								checkProofGetter(c, gf, "ExecutionBlockProof")
 							}
-							return false
-						}, core.DeriveOpts{})
-						vl := proofVectorLen(p, ptype, "ExecutionBlockProof")
-						okVec := vl > 0 && int64(bits.Len64(uint64(g))-1) == vl
-						r.Check(okVec, rule, skey+"el-vector-length", p.Pos(site.Pos()), fmt.Sprintf("%s.ExecutionBlockProof has %d siblings = floor(log2 %d)", ptype, vl, g), fmt.Sprintf("proof type %q supplies %d siblings but gindex %d lies at depth %d", ptype, vl, g, bits.Len64(uint64(g))-1))
-						wantG := map[string]int64{"BlockProofHistoricalRoots": 3228, "BlockProofHistoricalSummariesCapella": 3228, "BlockProofHistoricalSummariesDeneb": 6444}[ptype]
-						r.Check(wantG == g, rule, skey+"el-era-gindex", p.Pos(site.Pos()), fmt.Sprintf("%s uses gindex %d", ptype, g), fmt.Sprintf("proofs of type %q are checked at gindex %d, that era's execution payload sits at %d", ptype, g, wantG))
-						okRoot := core.Derives(sa[n-1], func(v ssa.Value) bool { _, f, ok := core.LoadedField(v); return ok && f == "BeaconBlockRoot" }, core.DeriveOpts{})
-						r.Check(okRoot, rule, skey+"el-root-operand", p.Pos(site.Pos()), "verified against the proof's beacon block root", "the execution branch is verified against something other than the proof's beacon block root")
-						okHash := sa[n-3] != nil && (derivesFromCall(sa[n-3], gethHeaderHash, nil) || func() bool { _, ok := sa[n-3].(*ssa.Parameter); return ok }())
-						r.Check(okHash, rule, skey+"el-leaf-operand", p.Pos(site.Pos()), "leaf operand is the header hash", "the execution branch's leaf operand is not the header hash")
+						}
+						return false
+					}, core.DeriveOpts{})
+					vl := proofVectorLen(p, ptype, "ExecutionBlockProof")
+					okVec := vl > 0 && int64(bits.Len64(uint64(g))-1) == vl
+					r.Check(okVec, rule, skey+"el-vector-length", p.Pos(at.Pos()), fmt.Sprintf("%s.ExecutionBlockProof has %d siblings = floor(log2 %d)", ptype, vl, g), fmt.Sprintf("proof type %q supplies %d siblings but gindex %d lies at depth %d", ptype, vl, g, bits.Len64(uint64(g))-1))
+					wantG := map[string]int64{"BlockProofHistoricalRoots": 3228, "BlockProofHistoricalSummariesCapella": 3228, "BlockProofHistoricalSummariesDeneb": 6444}[ptype]
+					r.Check(wantG == g, rule, skey+"el-era-gindex", p.Pos(at.Pos()), fmt.Sprintf("%s uses gindex %d", ptype, g), fmt.Sprintf("proofs of type %q are checked at gindex %d, that era's execution payload sits at %d", ptype, g, wantG))
+					okRoot := core.Derives(rootV, func(v ssa.Value) bool { _, f, ok := core.LoadedField(v); return ok && f == "BeaconBlockRoot" }, core.DeriveOpts{})
+					r.Check(okRoot, rule, skey+"el-root-operand", p.Pos(at.Pos()), "verified against the proof's beacon block root", "the execution branch is verified against something other than the proof's beacon block root")
+					okHash := leafV != nil && (derivesFromCall(leafV, gethHeaderHash, nil) || core.Derives(leafV, func(v ssa.Value) bool { pa, ok := v.(*ssa.Parameter); return ok && pa.Type().String() == "[]byte" }, core.DeriveOpts{}))
+					r.Check(okHash, rule, skey+"el-leaf-operand", p.Pos(at.Pos()), "leaf operand is the header hash", "the execution branch's leaf operand is not the header hash")
+				}
+				if _, rootIsParam := a[4].(*ssa.Parameter); rootIsParam {
+					r.Pass(rule, key+"el-root", pos, "root = the beacon block root parameter")
+					for cf, cs := range p.CallersOfFn(fn) {
+						for _, site := range cs {
+							sa := site.Common().Args
+							n := len(sa)
+							elOperands(fmt.Sprintf("%s→%s ", core.FuncName(cf), name), site, sa[n-3], sa[n-2], sa[n-1])
+						}
 					}
+				} else {
+					r.Pass(rule, key+"el-root", pos, "root operand checked in place")
+					elOperands(fmt.Sprintf("%s→(in place) ", name), call, a[0], a[1], a[4])
 				}
 				continue
 			}
@@ -423,6 +430,11 @@ func c03(c *Ctx) {
 					c2, ok := f.V.(*ssa.Call)
 					if !ok {
 						return false
+					}
+					if core.CalleeID(c2) == merkleVerify {
+						// the execution branch verified in place (constant generalized index)
+						_, isC := core.ConstInt(c2.Call.Args[3])
+						return isC
 					}
 					cf := core.StaticCalleeFn(c2)
 					if cf == nil {
